@@ -132,6 +132,13 @@ def summary(f, oname, scale, asym=False):
 
 def compare(base, tr, scale, unit, backend, n, det=True):
     out = []
+    if tr.get("member_asym") is not None and tr.get("asym") is not None:
+        # within the transformed problem: a member reports, for each of its parameters, the multi-fit's asymmetric uncertainties of that name
+        for key, got in tr["member_asym"].items():
+            p = key.split(":")[1]
+            exp = tr["asym"][p]
+            if got is None or any(abs(g - e) > 1e-9 * max(1.0, abs(e)) for g, e in zip(got, exp)):
+                out.append(("asym:" + key, exp, got, "not-the-multi-fit's"))
     if base.get("asym") is not None:
         if tr.get("asym") is None:
             out.append(("asymmetric_parameter_errors", "as for the untransformed problem", None, "missing"))
@@ -198,7 +205,17 @@ def build_multi(v, backend, perm, unit, swap=False):
         m.do_fit()
         names = list(m.parameter_names)
         C = np.asarray(m.parameter_cov_mat, dtype=float)
+        # asymmetric uncertainties of the multi-fit by name, and what each member reports for its own parameters (by name as well)
+        A = m.asymmetric_parameter_errors
+        asym = None if A is None else {p: [float(t) for t in A[i]] for i, p in enumerate(names)}
+        masym = {}
+        for k, fk in enumerate((f0, f1)):
+            Ak = fk.asymmetric_parameter_errors
+            for i, p in enumerate(fk.parameter_names):
+                masym["member%d:%s" % (k, p)] = None if Ak is None or np.shape(Ak) != (len(fk.parameter_names), 2) else [float(t) for t in Ak[i]]
         return dict(
+            asym=asym,
+            member_asym=masym,
             vals=dict(zip(names, np.asarray(m.parameter_values, dtype=float))),
             errs=dict(zip(names, np.asarray(m.parameter_errors, dtype=float))),
             cov={(a, b): C[i, j] for i, a in enumerate(names) for j, b in enumerate(names)},
